@@ -10,7 +10,8 @@ sys.path.insert(0, os.path.dirname(os.path.dirname(os.path.abspath(__file__))))
 from mc import repo, spaces, ecase, trace
 from mc.props import common
 
-RULES = ['wigm-prf', 'wigm-prf-batch', 'cfer', 'cfer-batch', 'scotland', 'mpls']
+import os as _os
+RULES = (_os.environ.get('CORNER_RULES') or 'wigm-prf wigm-prf-batch cfer cfer-batch scotland mpls').split()
 WANT = 6
 
 
@@ -51,8 +52,8 @@ def work(args):
                 continue
             if idx % 16 != shard:
                 continue
-            for ms in itertools.product((1, 2, 3), repeat=t5):
-                if sum(ms) > 10:
+            for ms in itertools.product((1, 2, 3, 4), repeat=t5):
+                if sum(ms) > 12:
                     continue
                 b = tuple((m, R[i]) for m, i in zip(ms, combo))
                 for s in (2, 3):
@@ -84,4 +85,4 @@ if __name__ == '__main__':
                     merged[k].append(c)
     out = [{'rule': k[0], 'event': k[1], 'case': c} for k, v in sorted(merged.items()) for c in v]
     print(json.dumps(collections.Counter((o['rule'], o['event']) for o in out).most_common(), indent=0))
-    json.dump(out, open(os.path.join(os.path.dirname(os.path.dirname(os.path.abspath(__file__))), 'mc', 'corpus_found.json'), 'w'), indent=0)
+    json.dump(out, open(os.environ.get('CORNER_OUT') or os.path.join(os.path.dirname(os.path.dirname(os.path.abspath(__file__))), 'mc', 'corpus_found.json'), 'w'), indent=0)
